@@ -114,6 +114,8 @@ func c07Class(spec TokSpec, stage, codec string) string {
 			hints = append(hints, "null-value-in-args-or-meta-map")
 		case codec == "json" && (name == "args" || name == "meta") && isIntegralFloat(strings.TrimPrefix(v, "k=")):
 			hints = append(hints, "dagjson-integral-float")
+		case codec == "json" && (name == "args" || name == "meta") && strings.TrimPrefix(v, "k=") == "str-latin1":
+			hints = append(hints, "dagjson-non-utf8-string")
 		}
 	}
 	if spec.Alg == "p384" || spec.Alg == "p521" {
@@ -396,7 +398,7 @@ func C07() *engine.Check {
 	return &engine.Check{
 		Property: "C07",
 		Level:    "model_checking",
-		Subs:     []*engine.Sub{c07Sub(algs, d), c07SizeSub(), c07SharedSub(), c07AgainSub()},
+		Subs:     []*engine.Sub{c07Sub(algs, d), c07SizeSub(), c07SharedSub(), c07AgainSub(), c07PipeSub()},
 		Assumptions: []string{
 			"fixture keys (one per algorithm, committed) stand for 'every generatable key'; C16 covers key-to-DID conversion over more keys",
 			"non-finite floats are outside the property's premise and not in the alphabet",
